@@ -162,6 +162,13 @@ func (e *Engine) pushFrame(st *State, th *Thread, fn *ssa.Function, args []Value
 	if len(fn.Blocks) == 0 {
 		e.unsupported("function without body: %s", fn)
 	}
+	if st.StackLimit > 0 && len(th.Frames) >= st.StackLimit && !th.Panicking {
+		// the harness declared that the code under test needs only a bounded stack: recursion
+		// beyond it is reported like Go's fatal "stack overflow" (which no recover() catches)
+		th.Frames = th.Frames[:1]
+		th.Frames[0].Defers = nil
+		e.goPanic(st, th, nil, fmt.Sprintf("stack overflow: call depth exceeds %d frames in %s (unbounded recursion)", st.StackLimit, fn))
+	}
 	if len(th.Frames) >= e.Opt.MaxDepth {
 		panic(abort{"unwind", fmt.Sprintf("call depth %d reached in %s", e.Opt.MaxDepth, fn)})
 	}
